@@ -88,7 +88,30 @@ def gtrace (cfg : Cfg) : St → List (List Int) → List GOp → List String
     let (s', g', o, ws) := gstep cfg s g op
     showLine o ws s'.table :: gtrace cfg s' g' ops
 
+def cfgOf (j : Json) : Option Cfg := do
+  match ← (← jArr j).mapM jNat with
+  | [a, b, c, d] => some ({ outOff := a, outSz := b, inOff := c, inSz := d } : Cfg)
+  | _ => none
+
+/-- an operation tagged with its terminal: `[ti, "e", write, logical, busfail]` / `[ti, "x", k, mode]` -/
+def parseBusOp (j : Json) : Option (Nat × Op) := do
+  match ← jArr j with
+  | ti :: rest => pure (← jNat ti, ← parseOp (Json.arr rest.toArray))
+  | _ => none
+
+/-- several terminals, each initialised (`Terminal.initialize`) and then used in any interleaving -/
+def busCase (j : Json) (bus : List Json) : Option String := do
+  let ts ← bus.mapM fun t => do
+    pure (← fNat t "n", ← cfgOf (← field t "cfg"))
+  let ops ← (← fArr j "ops").mapM parseBusOp
+  let inits := ts.map fun t => showLine "init" (initWrites t.1) (init t.1).table
+  let tr := busTrace (busInit ts) ops
+  pure (" | ".intercalate (inits ++ tr.map fun (i, o, ws, t) => s!"t{i}:" ++ showLine (showOutcome o) ws t))
+
 def step' (j : Json) : Option String := do
+  match field j "bus" with
+  | some b => if !b.isNull then return ← busCase j (← jArr b)
+  | none => pure ()
   let n ← fNat j "n"
   let cfg ← match ← (← fArr j "cfg").mapM jNat with
     | [a, b, c, d] => some ({ outOff := a, outSz := b, inOff := c, inSz := d } : Cfg)
